@@ -244,7 +244,86 @@ fn special_scalars(f: &mut Fill, n: usize) -> Vec<[u8; 32]> {
     v
 }
 
+/// nightly sub-run: the same key-agreement results through heap / locked containers
+#[cfg(feature = "nightly")]
+pub fn check_locked(c: &Case) -> Result<(), String> {
+    use dryoc::protected::*;
+    let n = a32(&c.scalar)?;
+    let p = a32(&c.point)?;
+    let de = |e: dryoc::Error| format!("{e:?}");
+    let io = |e: std::io::Error| format!("{e:?}");
+    let want_k = models::hsalsa20(&[0u8; 16], &models::x25519(&n, &p), None);
+    let lp = HeapByteArray::<32>::from_slice_into_locked(&p).map_err(de)?;
+    let ln = HeapByteArray::<32>::from_slice_into_readonly_locked(&n).map_err(de)?;
+    let k1 = PrecalcSecretKey::precalculate_locked(&lp, &ln).map_err(io)?;
+    let k2 = PrecalcSecretKey::precalculate_readonly_locked(&p, &n).map_err(io)?;
+    if k1.as_slice() != want_k {
+        return Err(format!("PrecalcSecretKey::precalculate_locked(pk={}, sk={}) = {} expected HSalsa20(X25519) = {}", hx(&p), hx(&n), hx(k1.as_slice()), hx(&want_k)));
+    }
+    if k2.as_slice() != want_k {
+        return Err("PrecalcSecretKey::precalculate_readonly_locked differs from HSalsa20(X25519)".into());
+    }
+    let my_pk = sodium::scalarmult_base(&n);
+    let kp: KeyPair<Locked<HeapByteArray<32>>, Locked<HeapByteArray<32>>> = KeyPair { public_key: HeapByteArray::<32>::from_slice_into_locked(&my_pk).map_err(de)?, secret_key: HeapByteArray::<32>::from_slice_into_locked(&n).map_err(de)? };
+    let k3 = kp.precalculate_locked(&p).map_err(io)?;
+    if k3.as_slice() != want_k {
+        return Err("KeyPair::precalculate_locked differs from HSalsa20(X25519)".into());
+    }
+    let refc = sodium::kx_client(&my_pk, &n, &p);
+    let refs = sodium::kx_server(&my_pk, &n, &p);
+    let oc: Result<Session<Locked<HeapByteArray<32>>>, _> = Session::new_client(&kp, &lp);
+    let os: Result<Session<HeapByteArray<32>>, _> = Session::new_server(&kp, &lp);
+    match (&oc, &refc) {
+        (Ok(s), Some((rx, tx))) => {
+            if s.rx_as_slice() != rx || s.tx_as_slice() != tx {
+                return Err("locked kx::Session::new_client keys differ from libsodium".into());
+            }
+        }
+        (Err(_), None) => {}
+        _ => return Err("locked kx::Session::new_client accept/refuse differs from libsodium".into()),
+    }
+    match (&os, &refs) {
+        (Ok(s), Some((rx, tx))) => {
+            if s.rx_as_slice() != rx || s.tx_as_slice() != tx {
+                return Err("heap kx::Session::new_server keys differ from libsodium".into());
+            }
+        }
+        (Err(_), None) => {}
+        _ => return Err("heap kx::Session::new_server accept/refuse differs from libsodium".into()),
+    }
+    Ok(())
+}
+
+#[cfg(feature = "nightly")]
+fn run_nightly_part(ctx: &mut Ctx) -> Result<(), Violation> {
+    let seed = ctx.seed;
+    let mut f = ctx.fill("scalars-n");
+    let scalars = special_scalars(&mut f, 24);
+    let mut items: Vec<Case> = vec![];
+    for (p, _) in &special_points() {
+        for s in scalars.iter().take(12) {
+            items.push(Case { scalar: Hex(s.to_vec()), point: Hex(p.to_vec()) });
+        }
+    }
+    for i in 0..ctx.tier.pick(3000usize, 40_000) {
+        let mut f = Fill::new(seed, &format!("C05:n:{i}"));
+        items.push(Case { scalar: Hex(f.bytes(32)), point: Hex(f.bytes(32)) });
+    }
+    ctx.par_each(&items, |_, c, ev| {
+        ev.eval(1);
+        ev.class("locked/heap containers: precalculate_locked, precalculate_readonly_locked, KeyPair::precalculate_locked, Session");
+        ev.nontrivial(fnv64(&[b"nightly", &c.scalar, &c.point]));
+        ev.sample("nightly", || json!({"scalar": hx(&c.scalar), "point": hx(&c.point)}));
+        check_locked(c).map_err(|m| Violation::new("C05", "x25519-locked", m, serde_json::to_value(c).unwrap()))
+    })
+}
+
 pub fn run(ctx: &mut Ctx) -> Result<(), Violation> {
+    #[cfg(feature = "nightly")]
+    if std::env::var("VERIF_PART").as_deref() == Ok("nightly") {
+        ctx.rule = "nightly sub-run: special point table x scalars and random pairs through locked / read-only locked / heap containers (PrecalcSecretKey::precalculate_locked, precalculate_readonly_locked, KeyPair::precalculate_locked, kx::Session over Locked and Heap keys) against the RFC 7748 model and libsodium".into();
+        return run_nightly_part(ctx);
+    }
     ctx.rule = "Scalars: random, 0, 0xff.., clamped min/max, only-clamped-away bits, single bits, L, 8L and neighbours. Points: uniformly random 32-byte encodings (proptest), the complete table of low-order u (0, 1, both order-8 u, p-1), non-canonical aliases p..p+18 and 2^255-1, u=2, 9, p±2, each with bit 255 clear and set; RFC 7748 iterated vectors. Entry points: crypto_scalarmult, crypto_scalarmult_base, crypto_box_beforenm, PrecalcSecretKey/KeyPair::precalculate, crypto_kx_{client,server}_session_keys, kx::Session::new_client, KeyPair::kx_new_server_session. Oracle: RFC 7748 Montgomery ladder on BigUint for every input; libsodium wherever it returns 0 (and its refusals must coincide with an all-zero model output); beforenm == HSalsa20(0, X25519); kx keys == libsodium's and dryoc returns Err exactly when libsodium refuses (all-zero shared secret); honest pairs: DH commutes, client rx/tx == server tx/rx. Non-trivial: point outside the prime-order subgroup (twist or torsion component, decided by the model) or non-canonical / high-bit encoding; distinct = hash(scalar, point).".into();
     ctx.assumptions = vec!["RFC 7748 BigUint ladder pinned by the RFC §5.2 vectors at start-up".into()];
     let seed = ctx.seed;
@@ -372,6 +451,11 @@ pub fn replay(v: &Violation) -> Result<(), String> {
             } else {
                 Err("iterated vector mismatch".into())
             }
+        }
+        #[cfg(feature = "nightly")]
+        "x25519-locked" => {
+            let c: Case = from_case(&v.case)?;
+            check_locked(&c)
         }
         _ => {
             let c: Case = from_case(&v.case)?;
